@@ -3,7 +3,7 @@ PROPS = {}
 LEMMAS = {}
 NOT_BUILT = {}
 
-SO_MODS = ['contracts.so_tick']
+SO_MODS = ['contracts.so_tick', 'contracts.so_msg']
 
 PROPS['C20'] = dict(
     modules=SO_MODS, units=['tick.leader', 'tick.not-leader', 'hasQuorum'], level='proof',
@@ -12,3 +12,15 @@ PROPS['C20'] = dict(
     level_text='Per-function contracts proved for all inputs on the real AST: the leader block of _onTick keeps the leader role only if, at the clock value it reads, more than half of the voters (itself included) answered within leaderFallbackTimeout; otherwise it becomes FOLLOWER with no leader; hasQuorum is exactly the majority-of-connected-voters formula. Unbounded in times, indices and log length; node universe bounded by the property quantifier.',
     level_note='The bound "fallback timeout + one tick period" is stated, not proved (the tick period is the caller\'s). Floats are reals (A-REAL), the clock is monotone (A-CLOCK). "Never acknowledges SUCCESS while cut off" rests on R9/R10 (C04 units) plus the cross-node argument A-RAFT, which is assumed.',
 )
+
+PROPS['C03'] = dict(
+    modules=SO_MODS, units=['msg.request_vote', 'msg.response_vote', 'tick.leader', 'tick.election'], level='proof',
+    assumptions=[], trusted=['T-TRANSPORT'], level_text='wip', level_note='wip')
+
+PROPS['C04'] = dict(
+    modules=SO_MODS, units=['tick.leader', 'tick.not-leader', 'msg.next_node_idx'], level='proof',
+    assumptions=[], trusted=['T-TRANSPORT'], level_text='wip', level_note='wip')
+
+PROPS['C01'] = dict(
+    modules=SO_MODS, units=['msg.append_entries'], level='proof',
+    assumptions=[], trusted=['T-TRANSPORT'], level_text='wip', level_note='wip')
